@@ -284,7 +284,7 @@ def run_check(pid, tier):
         "property_id": pid, "tier": tier if tier in ("quick", "thorough") else "quick", "seed": seed,
         "level": level,
         "coverage": {
-            "obligations": n_oblig - len(known_hit),
+            "obligations": n_oblig - len([k for k in known_hit if k.get("obligation") in by_name]),
             "discharged": discharged + 0,
             "obligations_including_known_findings": n_oblig,
             "known_finding_obligations": len(known_hit),
